@@ -136,11 +136,17 @@ where
             self.position += self.block.size();
 
             if self.block.data().len() > 0 {
-                break;
+                return Ok(self.block.data().len());
             }
         }
 
-        Ok(self.block.data().len())
+        // EOF: The last read block (if any) is stale, e.g., when the stream has no EOF marker.
+        self.block.set_position(self.position);
+        self.block.set_size(0);
+        self.block.data_mut().set_position(0);
+        self.block.data_mut().resize(0);
+
+        Ok(0)
     }
 
     fn read_block(&mut self) -> io::Result<usize> {
